@@ -43,6 +43,12 @@ type CListMempool struct {
 	txs          *clist.CList // concurrent linked-list of good txs
 	proxyAppConn proxy.AppConnMempool
 
+	// addTxMtx makes the capacity check, the already-in-pool check and the
+	// insertion done by resCbFirstTime one atomic step. With the local ABCI
+	// client that callback runs in the goroutine of each CheckTx caller, and
+	// those hold updateMtx only for reading.
+	addTxMtx tmsync.Mutex
+
 	// Track whether we're rechecking txs.
 	// These are not protected by a mutex and are expected to be mutated in
 	// serial (ie. by abci responses which are called in serial).
@@ -382,8 +388,10 @@ func (mem *CListMempool) resCbFirstTime(
 			postCheckErr = mem.postCheck(tx, r.CheckTx)
 		}
 		if (r.CheckTx.Code == abci.CodeTypeOK) && postCheckErr == nil {
-			// Check mempool isn't full again to reduce the chance of exceeding the
-			// limits.
+			mem.addTxMtx.Lock()
+			defer mem.addTxMtx.Unlock()
+
+			// Check mempool isn't full again: the limits must not be exceeded.
 			if err := mem.isFull(len(tx)); err != nil {
 				// remove from cache (mempool might have a space later)
 				mem.cache.Remove(tx)
